@@ -47,7 +47,6 @@ void COSdoReset(CO_SDO *srv, uint8_t num, CO_NODE *node)
     srvnum->Node         = node;
     srvnum->RxId         = CO_SDO_ID_OFF;
     srvnum->TxId         = CO_SDO_ID_OFF;
-    srvnum->Frm          = 0;
     srvnum->Obj          = 0;
     offset               = num * CO_SDO_BUF_BYTE;
     srvnum->Buf.Start    = &node->SdoBuf[offset];
